@@ -156,7 +156,6 @@ func (e *vEngine) VirtualizationRemove(_ context.Context, id string, _, _ bool) 
 	return nil
 }
 
-
 // ---- store: workload records (with faults) ----
 
 func (s *vStore) GetWorkload(_ context.Context, id string) (*types.Workload, error) {
